@@ -6,6 +6,11 @@ package main
 // distinct lines, exact duplicates, shuffled orders, concurrency 1…16, GOMAXPROCS ∈ {1,2,16}, with
 // and without scheduling pressure, cold cache = solo process, warm cache = later lines of one
 // session); the SHA-256 of every result file is compared with the solo run of the same line.
+// Sessions mixing parameter folders (added / missing soil textures and fertilisers, other crop, N and
+// hydraulic tables), per-project automan and output configurations and projects without optional
+// input files: every conflict pair in both orders at concurrency 1 and 2, random mixes, each line
+// compared with its solo run (kern_dispatch_session.go) — anything derived from such a table and kept
+// for the session shows as a line whose outcome or files depend on what ran before it.
 // Thorough tier: the same with a `-race` build; the race detector's output must be empty.
 // Correspondence: the real FilePool against the pool model (dispatch.pool), the summary of the real
 // binary against the model dispatcher run under a random schedule (dispatch.run).
@@ -139,7 +144,7 @@ func checkC03(c *vh.Ctx) {
 			raceBin = ""
 		}
 	}
-	c.Res.Rule = "every batch (lines drawn with repetition from the distinct lines of the generated projects, shuffled, concurrency 1..16, GOMAXPROCS in {1,2,16}, scheduling pressure on/off, normal and -race build in the thorough tier): sha256 of every result file == sha256 of the solo run of the same line, file set == union of the lines' own files, inputs unchanged, race detector silent; evaluations = (batch, line) pairs + pool and dispatcher correspondence cases; distinct = distinct (line key, concurrency, GOMAXPROCS, pressure, build) combinations"
+	c.Res.Rule = "every batch (lines drawn with repetition from the distinct lines of the generated projects, shuffled, concurrency 1..16, GOMAXPROCS in {1,2,16}, scheduling pressure on/off, normal and -race build in the thorough tier): sha256 of every result file == sha256 of the solo run of the same line, file set == union of the lines' own files, inputs unchanged, race detector silent; sessions mixing parameter folders / per-project tables / absent optional files: every conflict pair in both orders at concurrency 1 and 2 plus random mixes, outcome (success / reported error and message) and files of every line == its solo run; evaluations = (batch, line) pairs + pool and dispatcher correspondence cases; distinct = distinct (line key, concurrency, GOMAXPROCS, pressure, build) combinations"
 
 	checkConcurrencyFacts(c)
 	poolCorrespondence(c)
@@ -351,6 +356,13 @@ func checkC03(c *vh.Ctx) {
 				break
 			}
 		}
+	}
+	// ---------------------------------------------------------------- sessions mixing parameter folders,
+	// per-project tables and projects without optional files (kern_dispatch_session.go)
+	{
+		cs, im := runSessionScenario(c, bin, raceBin, c.N(3, 6), c.N(12, 40))
+		cases = append(cases, cs...)
+		impl = append(impl, im...)
 	}
 	saved := cases
 	c.Correspond("dispatch.run", cases, impl, 0, 0, func(i int) interface{} { return saved[i] })
